@@ -12,6 +12,7 @@
 //                         -DSH_SSET_ER=1 / -DSH_SSET_HER=1   static_set::equal_range(key) / (K const&) instantiate
 //                         -DSH_FSET_INS_SU=1 flat_set::insert(sorted_unique, first, last) links
 #include "common.hpp"
+#include <sys/time.h>
 #include "contain.hpp"
 
 #include <algorithm>
@@ -571,7 +572,7 @@ int run_one(Args const& a)
     long before = vh::live_count();
     if (a.mode == "replay") {
         r.replay(*a.lines, a.start);
-        alarm(0);
+        { struct itimerval tv{{0, 0}, {0, 0}}; setitimer(ITIMER_VIRTUAL, &tv, nullptr); }
     } else {
         for (int k = 1; k <= a.nuniv; ++k) { r.univ.push_back(k); }
         vh::Rng rng(a.seed * 1000003ull + N * 7919ull + (uint64_t)KIND * 31ull + (uint64_t)CK * 131ull + (vh::is_tracked<T> ? 17 : 0));
